@@ -34,13 +34,24 @@ KINDS = {
     'hot-bucket-nil': ('hotspot', 'MCStat', ['erase']),
     'hot-throttle': ('hotspot', 'MCStat', ['erase', 'fromstart']),
     'hot-conc': ('hotspot', 'MCStat', ['erase', 'fromstart']),
+    # mode kept: the watched breaker rule is MODIFIED (only its retry timeout) at any position, also while its breaker is Open /
+    # HalfOpen; no reference run - RuleReuse_Trace computes the decisions of a breaker that starts Closed on the kept error count
+    'cb-trip-open': ('circuitbreaker', 'MCStat', ['kept']),
+    'cb-trip-half': ('circuitbreaker', 'MCStat', ['kept']),
 }
+# mode kept: (old list, new list) - the statement's relation must hand X's statistics to Xr (checked by the trace spec)
+KEPT_SHAPES = [(['X'], ['Xr']), (['X', 'N1'], ['Xr', 'N1']), (['N1', 'X'], ['Xr']), (['X'], ['N1', 'Xr']), (['X', 'S1'], ['Xr', 'S1']), (['X'], ['Xr', 'S1']),
+               (['S1', 'X'], ['S1', 'N2', 'Xr'])]
+# mode kept: reload positions per kind and spelling.  cb-trip-half holds its probe in flight at step 5: the old breaker is HalfOpen from
+# position 5 on (with ProbeNum written out a HalfOpen breaker admits further requests, which would complete the probe: position 5 only)
+KEPT_POS = {'cb-trip-open': {'unset': range(0, NSTEPS + 1), 'set': range(0, NSTEPS + 1)}, 'cb-trip-half': {'unset': [5, 6, 7, 8], 'set': [5]}}
 # kind -> spellings of the optional fields the driver knows (harness/cmd/c14: kind.opts): 'set' = written out, 'unset' = left
 # at zero so that the module's defaulting applies, 'part' = only some unset, 'nil' = hotspot SpecificItems nil
 OPTS = {
     'flow-throttle': ['set', 'unset'], 'flow-warmup': ['set', 'unset', 'part'], 'flow-standalone': ['set'], 'flow-standalone-mod': ['set'],
     'cb-open': ['unset', 'set'], 'cb-mod': ['unset', 'set'], 'hot-bucket': ['unset', 'set'], 'hot-bucket-nil': ['unset', 'set'],
     'hot-throttle': ['unset', 'set', 'nil'], 'hot-conc': ['unset', 'set', 'nil'],
+    'cb-trip-open': ['unset', 'set'], 'cb-trip-half': ['unset', 'set'],
 }
 P0S = ['whole', 'res']                          # entry point of the initial load
 PATHS = ['whole', 'wholeOther', 'res']          # load path of the reload (RuleReuse: AllPaths)
@@ -67,6 +78,7 @@ CONSTANTS
   MaxLen = %d
   MaxTraffic = %d
   Reuse = "%s"
+  TripAge = 1
   Paths = %s
   Norm <- MCNorm
   Defaulting = %s
@@ -85,6 +97,7 @@ CONSTANTS
   MaxLen = 3
   MaxTraffic = 0
   Reuse = "statement"
+  TripAge = 1
   Paths = {"whole", "wholeOther", "res"}
   Norm <- MCNorm
   Defaulting = {}
@@ -133,6 +146,10 @@ def generic_signature(exp):
         return ('C14/hotspot/nil-specific-items/rule-not-equal-to-itself-after-first-load',
                 'hotspot: a rule with nil SpecificItems never Equals itself after the first load (the load stored an empty map into it): on a reload it is '
                 'rebuilt and, when reordered, takes over the statistics of another rule')
+    if mode == 'kept':
+        return ('C14/%s/%s/modified-rule-loses-statistics' % (mod, kind),
+                '%s (%s): a rule modified without touching its statistic parameters (only the retry timeout) does not keep its accumulated statistics: the '
+                'regenerated breaker does not decide like a Closed breaker on the error count recorded before the reload' % (mod, kind))
     if mode == 'fromstart':
         return ('C14/%s/%s/modified-rule-loses-statistics' % (mod, kind), '%s (%s): a modified rule with unchanged statistic parameters does not keep its statistics' % (mod, kind))
     return ('C14/%s/%s/reload-visible-for-unchanged-rule' % (mod, kind), '%s (%s): a reload is visible for an unchanged rule' % (mod, kind))
@@ -141,23 +158,27 @@ def generic_signature(exp):
 def binding_selftest(c, tp, bad):
     """make run A more generous than run B at one step of good, non-relaxed pairs: every one must be rejected"""
     lines = [json.loads(l) for l in open(tp)]
-    out, want, n, cur, armed = [], set(), 0, None, False
+    out, want, n, nk, cur, armed, mode = [], set(), 0, 0, None, False, None
     for e in lines:
         if e['op'] == 'new':
-            if n >= 60:
+            if n >= 60 and (nk >= 30 or e['mode'] != 'kept'):
                 break
-            cur = e['tr']
+            cur, mode = e['tr'], e['mode']
             dup = e['mode'] == 'erase' and e['new'].count('X') > e['old'].count('X')
-            armed = cur not in bad and not dup
-            skip = c.rng.randint(e['pos'] if e['mode'] == 'fromstart' else 0, NSTEPS - 1)
+            armed = cur not in bad and not dup and (nk < 30 if mode == 'kept' else n < 60)
+            skip = c.rng.randint(min(e['pos'], NSTEPS - 1) if e['mode'] in ('fromstart', 'kept') else 0, NSTEPS - 1)
         elif armed and e['i'] > skip and e['a']['d'] in 'PB':
-            if e['a']['d'] == 'B':
+            if mode == 'kept':          # no reference run: the recorded decision itself is flipped (after the reload)
+                e['a'] = dict(d='P' if e['a']['d'] == 'B' else 'B', w=0)
+                nk += 1
+            elif e['a']['d'] == 'B':
                 e['a'] = dict(d='P', w=0)
+                n += 1
             else:
                 e['b'] = dict(d='B', w=0)
+                n += 1
             armed = False
             want.add(cur)
-            n += 1
         out.append(e)
     cp = os.path.join(c.scratch, 'corrupt.ndjson')
     write_ndjson(cp, out)
@@ -165,7 +186,9 @@ def binding_selftest(c, tp, bad):
     got = {m[0] for m in mism} - set(bad)
     if got != want or not want:
         raise MachineryError('binding self-test failed: corrupted pairs %s, rejected %s' % (sorted(want), sorted(got)))
-    c.cov['binding_selftest'] = '%d corrupted pairs, all rejected' % len(want)
+    if nk == 0:
+        raise MachineryError('binding self-test: no kept-statistics pair corrupted')
+    c.cov['binding_selftest'] = '%d corrupted pairs (%d of mode kept), all rejected' % (len(want), nk)
     c.log('binding self-test: %d corrupted pairs, all rejected by RuleReuse_Trace' % len(want))
 
 
@@ -243,6 +266,11 @@ def check(c, tier, replay):
         if r.violated != 'ReloadInvisible':
             raise MachineryError('vacuity self-test: reuse algorithm %s does not violate ReloadInvisible (%s)' % (alg, r.error or r.violated))
         caught[alg] = r.violated
+    # statistics of an old rule are taken over only if its controller is not tripped (breaker Open / HalfOpen) at the reload
+    r = c.tlc('RuleReuse_MC', cfg_text=mc_cfg('MCToks', 'MCStat', 2, 2, reuse='closedOnly', invs='ReuseRespected'), workers=4, timeout=600, count=False)
+    if r.violated != 'ReuseRespected':
+        raise MachineryError('vacuity self-test: reuse algorithm closedOnly does not violate ReuseRespected (%s)' % (r.error or r.violated))
+    caught['closedOnly'] = r.violated
     # an entry point that stores / compares the defaulted copy of a rule instead of the caller's tuple
     for dflt in ('{"whole"}', '{"res"}'):
         for inv in ('ReloadInvisible', 'EntryPointAgnostic'):
@@ -255,6 +283,15 @@ def check(c, tier, replay):
     # scenarios --------------------------------------------------------------------------
     pairs, tr = [], 0
     per_kind = 250 if not thorough else 1500
+    for kind, (mod, stat, modes) in KINDS.items():        # (first, so that the binding self-test of the first chunk sees them)
+        if 'kept' in modes:
+            for old, new in KEPT_SHAPES:
+                for opt in OPTS[kind]:
+                    for pos in KEPT_POS[kind][opt]:
+                        for p0 in P0S:
+                            for path in PATHS:
+                                tr += 1
+                                pairs.append(pair(tr, kind, 'kept', old, new, pos, p0, path, opt))
     for kind, (mod, stat, modes) in KINDS.items():
         opts = OPTS[kind]
         if 'erase' in modes:
@@ -355,6 +392,8 @@ def check(c, tier, replay):
         what = '%s  [%d failing pairs, kinds %s%s; minimal: kind %s (optional fields %s), %s loaded (%s) -> %s reloaded (%s) before step %d: step %d decided %s with the reload, %s without]' % (
             g['what'], g['n'], sorted(g['kinds']), ''.join('; ' + w for w in where), e['kind'], e['opt'], e['old'], e['p0'], e['new'], e['path'], e['pos'] + 1,
             e['step'], json.dumps(e['a']), json.dumps(e['b']))
+        if e['mode'] == 'kept':
+            what = what.replace(' without]', ' is what a breaker that starts Closed on the error count kept from before the reload (%s) decides]' % json.dumps(e.get('breaker')))
         c.cov.setdefault('failing_groups', {})[k] = dict(pairs=g['n'], kinds=sorted(g['kinds']), minimal=g['best'], observed=e,
                                                          entry_points=sorted('%s->%s' % cb for cb in g['combos']), opts=sorted(g['opts']))
         if c.is_known(k):
